@@ -377,7 +377,7 @@ def _case(rng: Rng, tier, entry=None, force=None):
 
 
 def gen_cases(rng: Rng, tier):
-    n = dict(quick=160, thorough=2400)[tier]
+    n = dict(quick=150, thorough=2400)[tier]
     k = 0
     # structured head: every entry point with both methods, away from [0,1] too
     for entry in sorted(set(ENTRIES)):
